@@ -289,3 +289,57 @@ func VH_C04_Placement() {
 	symAssert(err2 == nil && out2 == out, "placed-context-independent")
 	symAssert(!called, "placed-not-evaluated")
 }
+
+// ---- C04.stray: text after a tag that closes nothing --------------------------------------------------
+var vhC04StrayTags = []string{"endif", "endfor", "endblock", "endmacro", "else", "elseif x", "endspaceless", "endapply", "endverbatim", "endset", "endwith", "endnothing"}
+
+// VH_C04_Stray: L {% tag %} R with a tag that ends or continues a block although none is open (at top
+// level, after a completed block, inside another kind of block). Either the template is rejected, or
+// every byte of L and R is in the output: text is never dropped silently.
+func VH_C04_Stray() {
+	tag := vhC04StrayTags[symChoice(len(vhC04StrayTags))]
+	l := symStringIn(symChoice(1+symParam("N", 2)), "a <\xc3")
+	r := symStringIn(symChoice(1+symParam("N", 2)), "b >\xa9")
+	form := symChoice(4)
+	symTag("tag:" + tag + " form:" + []string{"top", "after-if", "after-for", "trim"}[form])
+	var src, want string
+	switch form {
+	case 0:
+		src, want = l+"{% "+tag+" %}"+r, l+r
+	case 1:
+		src, want = l+"{% if x %}y{% endif %}{% "+tag+" %}"+r, l+"y"+r
+	case 2:
+		src, want = "{% for i in [1] %}"+l+"{% endfor %}{% "+tag+" %}"+r, l+r
+	default:
+		src, want = l+"{%- "+tag+" -%}"+r, ""
+	}
+	e := New()
+	if e.RegisterString("t", src) != nil {
+		symCover("rejected")
+		return
+	}
+	out, err := e.Render("t", map[string]interface{}{"x": 1})
+	symCover("accepted")
+	if err != nil {
+		return
+	}
+	if form == 3 {
+		// with dashes only blanks next to the tag may go: what is left of L and R must still be there
+		symAssert(len(out) >= len(vhTrimRightBlank(l))+len(vhTrimLeftBlank(r)), "text-after-misplaced-tag-dropped")
+		return
+	}
+	symAssert(out == want, "text-after-misplaced-tag-dropped")
+}
+
+func vhTrimRightBlank(s string) string {
+	for len(s) > 0 && s[len(s)-1] == ' ' {
+		s = s[:len(s)-1]
+	}
+	return s
+}
+func vhTrimLeftBlank(s string) string {
+	for len(s) > 0 && s[0] == ' ' {
+		s = s[1:]
+	}
+	return s
+}
